@@ -152,6 +152,8 @@ func (s *SuffrageStateBuilder) buildBatch(
 				return err
 			case !found:
 				return util.ErrNotFound.Errorf("suffrage proof not found, %d", height)
+			case proof.SuffrageHeight() != height:
+				return errors.Errorf("suffrage proof of wrong height, %d; expected %d", proof.SuffrageHeight(), height)
 			}
 
 			return func() error {
